@@ -45,7 +45,7 @@ type PF struct {
 	inProgress map[*ssa.Function]bool
 	Undecided  []string // unsupported idioms met (conditional defer, ...)
 	// Visit, if set, is called with the state set holding *before* each instruction of the root analysis.
-	Visit func(fn *ssa.Function, in ssa.Instruction, before StateSet)
+	Visit    func(fn *ssa.Function, in ssa.Instruction, before StateSet)
 	boolMemo map[interface{}]StateSet
 	preCall  map[*ssa.Call]StateSet // states in which each summarised call was entered (for result-sensitive refinement)
 	// DeepVisit: Visit is also called for the instructions of summarised callees, with the states of the call contexts
